@@ -7,3 +7,8 @@ from vt.props._units import run_units
 def run(ctx, proofs_ok):
     run_env_property(ctx, proofs_ok, "C02")
     run_units(ctx, proofs_ok)
+
+
+def replay(obj):
+    from vt import envreplay
+    return envreplay.replay(obj, "C02")
